@@ -107,7 +107,7 @@ theorem decodeField_ne' (X : Ext) {name tag : Bytes} (h : name ≠ tag) {pres : 
          | .ok (acc', r) => .ok (slot :: acc', r)) := by
   cases shape <;> simp only [decodeField, if_neg h] <;> cases decodeField X rest name evs accRest <;> rfl
 
-/-! ### clause: nothing but white space outside the root (code since 4f52948)
+/-! ### clause: nothing but white space outside the root (code since d51737b)
 
 `Deserializer::read_event` keeps the nesting depth and refuses character data outside the document element. On
 the event level: in what `deEvents` hands out, every character-data event at depth 0 is a white-space text
